@@ -18,20 +18,45 @@ ASSUMPTIONS = ["k <= 10 (table_rule renders states with str, random_rule_table w
                "table_walk_through is exercised on complete tables (what random_rule_table returns)"]
 
 
-class FakeRandom:
+class FakeRandom(pyrandom.Random):
+    """Stands in for the `random` module inside cellpylib.rule_tables: a seeded generator that records the calls
+    the model has an oracle for (`random()`, `choice()`). Any other call still works (a refactored implementation
+    may use `shuffle`, `sample`, …) but marks the run as not replayable into the model."""
+
     def __init__(self, seed):
-        self.rng = pyrandom.Random(seed)
-        self.events = []
+        super().__init__(seed)
+        self._aux = pyrandom.Random(seed + 991)     # index choices come from a second stream, so that a recorded
+        self.events = []                            # `choice` never shows up as an extra `random()` event
+        self.other = []
 
     def random(self):
-        v = self.rng.random()
+        v = super().random()
         self.events.append(("r", v))
         return v
 
     def choice(self, seq):
-        i = self.rng.randrange(len(seq))
+        i = self._aux.randrange(len(seq))
         self.events.append(("c", i, isinstance(seq[0], str)))
         return seq[i]
+
+    def shuffle(self, x, *a, **k):
+        self.other.append("shuffle")
+        return super().shuffle(x)
+
+    def sample(self, *a, **k):
+        self.other.append("sample")
+        return super().sample(*a, **k)
+
+    def randint(self, a, b):
+        self.other.append("randint")
+        return super().randint(a, b)
+
+    def uniform(self, a, b):
+        self.other.append("uniform")
+        return super().uniform(a, b)
+
+
+UNMODELLED = "unmodelled-random-calls"      # the driver answers bad-op: reported as a broken correspondence
 
 
 def rrt_oracle(events):
@@ -46,7 +71,7 @@ def rrt_oracle(events):
                 out.append(-1)
                 i += 1
         else:
-            raise RuntimeError("choice without random()")
+            raise ValueError("choice without random()")
     return out
 
 
@@ -54,7 +79,8 @@ def walk_oracle(events):
     out = []
     i = 0
     while i < len(events):
-        assert events[i][0] == "c" and events[i][2]
+        if not (events[i][0] == "c" and events[i][2]):
+            raise ValueError("unexpected random call pattern")
         if i + 1 < len(events) and not events[i + 1][2]:
             out.append([events[i][1], events[i + 1][1]])
             i += 2
@@ -101,7 +127,13 @@ def run_walk(c):
     saved = rt.random
     rt.random = fake
     try:
-        target = lam0 if c["target"] == "current" else c["target"] / 64.0
+        if c["target"] == "current":
+            target = lam0
+        elif c["target"] == "attainable":      # exactly m / k^n, an attainable lambda of this table size
+            total = c["k"] ** (2 * c["r"] + 1)
+            target = pyrandom.Random(c["seed"] + 5).randint(0, total) / total
+        else:
+            target = c["target"] / 64.0
         new_table, lam1 = cpl.table_walk_through(table, target, c["k"], c["r"], q, strong_quiescence=bool(c["sq"]),
                                                  isotropic=bool(c["iso"]))
         return start, lam0, int(q), dict(new_table), lam1, fake, target
@@ -124,7 +156,7 @@ def gen(ctx):
         k = rng.choice([2, 2, 3, 3, 4])
         r = rng.choice([0, 1, 1, 2]) if k <= 3 else rng.choice([0, 1])
         yield dict(kind="walk", k=k, r=r, q=rng.randrange(k), sq=int(rng.random() < 0.5), iso=int(rng.random() < 0.5),
-                   lam=rng.randint(0, 64), target=rng.choice(["current", 0, 64, rng.randint(0, 64), rng.randint(0, 64)]),
+                   lam=rng.randint(0, 64), target=rng.choice(["current", 0, 64, rng.randint(0, 64), rng.randint(0, 64), "attainable", "attainable"]),
                    seed=rng.randrange(10 ** 6))
     for _ in range(ctx.n(100, 1000)):
         k = rng.randint(2, 5)
@@ -135,8 +167,17 @@ def gen(ctx):
 
 
 def line(c):
+    try:
+        return _line(c)
+    except (ValueError, IndexError, AssertionError):
+        return UNMODELLED
+
+
+def _line(c):
     if c["kind"] == "rrt":
         res, fake, exc = run_rrt(c)
+        if fake.other:
+            return UNMODELLED
         q = c["q"]
         if q is None:
             q = int(res[2]) if res else 0
@@ -145,7 +186,9 @@ def line(c):
         return "rrt k=%d r=%d q=%d sq=%d iso=%d oracle=%s" % (c["k"], c["r"], q, c["sq"], c["iso"], fmt.vec(rrt_oracle(fake.events)))
     if c["kind"] == "walk":
         start, lam0, q, new, lam1, fake, target = run_walk(c)
-        tf = Fraction(target).limit_denominator(10 ** 6)
+        if fake.other:
+            return UNMODELLED
+        tf = Fraction(target).limit_denominator(10 ** 6)       # m/64 and m/k^n (k^n <= 3125) are recovered exactly
         return "walk table=%s num=%d den=%d k=%d r=%d q=%d sq=%d iso=%d oracle=%s" % (
             table_str(start), tf.numerator, tf.denominator, c["k"], c["r"], q, c["sq"], c["iso"], fmt.mat(walk_oracle(fake.events)))
     t = {"".join(str(x) for x in key): v for key, v in c["table"]}
@@ -160,11 +203,19 @@ def impl(c):
             return fmt.err(exc)
         table, lam, q = res
         total = c["k"] ** (2 * c["r"] + 1)
-        return "ok table=%s count=%d used=%d" % (table_str(table), total - round(lam * total), len(rrt_oracle(fake.events)))
+        try:
+            used = len(rrt_oracle(fake.events))
+        except ValueError:
+            used = -1
+        return "ok table=%s count=%d used=%d" % (table_str(table), total - round(lam * total), used)
     if c["kind"] == "walk":
         start, lam0, q, new, lam1, fake, target = run_walk(c)
         total = c["k"] ** (2 * c["r"] + 1)
-        return "ok table=%s count=%d used=%d" % (table_str(new), total - round(lam1 * total), len(walk_oracle(fake.events)))
+        try:
+            used = len(walk_oracle(fake.events))
+        except ValueError:
+            used = -1
+        return "ok table=%s count=%d used=%d" % (table_str(new), total - round(lam1 * total), used)
     t = {"".join(str(x) for x in key): v for key, v in c["table"]}
     try:
         return "ok %d" % cpl.table_rule(np.array(c["n"]), t)
@@ -229,6 +280,13 @@ def oracle(c):
         l0, l1, tg = Fraction(lam0), Fraction(lam1), Fraction(target)
         if l0 > tg and l1 > l0 or l0 < tg and l1 < l0 or (l0 == tg and l1 != l0):
             return "lambda moved away from the target (%s -> %s, target %s)" % (l0, l1, tg)
+        # stops ONCE reached or crossed: the state before the last perturbation was still strictly on the starting
+        # side, and one perturbation moves lambda by 1/total (2/total when the mirror image is changed too)
+        step = Fraction(2 if c["iso"] else 1, total)
+        if l0 > tg and l1 < tg and tg - l1 >= step:
+            return "walk went on after reaching/crossing the target: lambda %s -> %s, target %s, one step is at most %s" % (l0, l1, tg, step)
+        if l0 < tg and l1 > tg and l1 - tg >= step:
+            return "walk went on after reaching/crossing the target: lambda %s -> %s, target %s, one step is at most %s" % (l0, l1, tg, step)
         # stops once reached or crossed, or no admissible entry remains
         if l0 > tg and l1 > tg:
             cands = [s for s, v in new.items() if v != q and not (c["sq"] and len(set(s)) == 1)]
